@@ -39,6 +39,7 @@ enum Kind {
     // plugin chain changes made by a test while the run is under way (C17)
     K_PLUGIN_INSTALL, // a = plugin index (a plugin group with args[2] = 1 is 'late': not installed before the run)
     K_PLUGIN_REMOVE,  // a = plugin index: TestRegistry::removePluginByName
+    K_OTHER_LEAK_PLUGIN, // the test builds and destroys a second MemoryLeakWarningPlugin over a detector of its own (as the library's own tests do)
     K_ADD_FAILURES,   // a = n: n failures recorded through UtestShell::addFailure without leaving the phase; d = line; s2 = token
     K_COUNT
 };
